@@ -173,3 +173,12 @@ _set('C18', 'level_text', 'Proof (Verus) of the handle-table protocol and error 
 _add('C18', 'decides', 'Wrappers: OPEN calls the manager with exactly the decoded arguments (errors 55/53 carry over); EOF(n) = one eof() call of that handle\'s INPUT reader; LINE INPUT / INPUT on BOTH devices store what one line_input() / input() call returned ("console INPUT and LINE INPUT split fields and lines exactly as their file forms do"); FIELD records the list in order and rejects a list wider than LEN; PUT = one seek + one write of the padded/truncated field variables; GET assigns each field its slice, no index out of bounds; wrong mode / closed handle -> BadFileMode / FileNotFound; on an error nothing changes.')
 _set('C18', 'not_decided', 'CLOSE (iterator adapters on an opaque impl Iterator), KILL/NAME (std::fs directly), FileInfo::get_record and mark_current_field_list (declared); read-back-what-was-written, APPEND, PUT/GET persistence (host file system across a history of calls)')
 _set('C18', 'technique', 'Verus contracts on the extracted FileManager (File opaque, ghost operation log) and on the extracted built-in wrappers (trait-level contract on InterpreterTrait / Input) + bounded Kani harness on the generic reader')
+
+_add('C04', 'decides', 'record_value (Verus): a record value holds every declared field; get / get_mut address a field by name, a store changes that field and nothing else (read-after-write, other fields untouched, stores commute), an undeclared field is None, never a panic; property_rules: `a.b` resolves to the declared field type, an undeclared field is Element not defined; redim_rules: REDIM keeps element type and number of dimensions of an existing dynamic array.')
+_set('C04', 'not_decided', 'find_element_type (pinned; bounded Kani companion on one TYPE); byte-size / address-offset helpers of records (iterator chains); variable-path construction in the generator; conversion of the stored value to the element type (covered under C06)')
+_add('C13', 'decides', 'dim_rules (Verus, every function of converter/dim_rules/{validation,dim_type_rules,param_type_rules,param_rules,main}.rs and core/string_length.rs on its real body): Duplicate definition exactly for a name that is a SUB, a FUNCTION, a CONST of the scope or an existing variable (compact: extended or same qualifier; extended: any variable of the base name), STRING * n with 1 <= n <= 32767, DIM SHARED only in the main module, an accepted declaration changes only that base name of the current scope; redim_rules: a bare REDIM A is judged against the extended A or the compact A of the default type only.')
+_set('C13', 'not_decided', 'the composition `convert` of the rule list (Vec<Box<dyn VarResolve>>: pinned and assumed); find_name_or_shared_in_parent (HashMap iterator chain: declared with its intended contract, pinned)')
+_set('C16', 'level_text', 'Proof (Kani, loop-free) of the PRINT separator/newline state machine; proof (Verus, unbounded in the length of the format) of the PRINT USING rendering code - literal copy, string fields, numeric field scanner and integer part, cyclic reuse of the format - and of the number framing of PRINT, with the decimal text of a number (core::fmt) uninterpreted; the generator side of PRINT (Verus); column arithmetic of the device writer as bounded stand-ins.')
+_add('C16', 'decides', 'PRINT USING (Verus): print_non_formatting_chars copies the literal text cyclically up to the next field opener, a format without a field is Illegal function call; `\\ \\` field: the string left-justified in exactly (blanks+2) columns, `!`: the first character; numeric field = maximal run of # , . with the cursor right after it, integer part right-justified, thousands separators between digits only (known finding F110 carved out: the tree copies the commas of the format); successive values use successive fields, the format is reused cyclically; print_number: one print call with [blank if non-negative] + Display + blank, strings verbatim.')
+_set('C16', 'not_decided', 'the decimal text of a number (core::fmt); fmt_with_fractional_part beyond the concrete cases of the bounded companion; malformed numeric fields; -0.0 framing; per-device tracking (structural: one WritePrinter per device)')
+_set('C16', 'technique', 'Kani harnesses with a recording Printer on the real PrintState / WritePrinter + Verus contracts on the extracted PRINT USING / framing code and on the PRINT emitters of the generator')
